@@ -548,3 +548,22 @@ def ckk_generator_yields(presented, numbins):
     def run():
         return [_norm_bins_result(y) for y in generator(binner, numbins, items)]
     return guarded(run)
+
+
+# ------------------------------------------------------------------ purity (C15)
+
+def snapshot(presented):
+    """A deep, comparable snapshot of the arguments of a call (items and, for names+valueof, the value table)."""
+    items = presented.items
+    if isinstance(items, np.ndarray):
+        snap = ("ndarray", items.dtype.str, items.shape, items.tobytes(), bool(items.flags.writeable))
+    elif isinstance(items, dict):
+        snap = ("dict", [(k, repr(v)) for k, v in items.items()])
+    else:
+        snap = ("list", type(items).__name__, [(type(x).__name__, repr(x)) for x in items])
+    extra = None
+    if presented.valueof is not None and presented.valueof.__defaults__:
+        d = presented.valueof.__defaults__[0]
+        if isinstance(d, dict):
+            extra = [(k, repr(v)) for k, v in d.items()]
+    return (snap, extra)
